@@ -47,9 +47,12 @@ func TestVerif(t *testing.T) {
 }
 
 type c12Op struct {
-	K string `json:"k"` // exch, tick, change, restart, lossy, once
+	K string `json:"k"` // exch, tick, change, restart, lossy, once, late, deliver
 	I int    `json:"i"`
 	J int    `json:"j,omitempty"`
+	// change: the state the member publishes for itself, plus one (1 healthy, 2 suspect,
+	// 3 dead, 4 left); 0 = toggle healthy/suspect
+	To int `json:"to,omitempty"`
 }
 
 type c12Case struct {
@@ -79,13 +82,25 @@ func genC12Ops(t *rapid.T, n, count int, self int) []c12Op {
 		if j >= i {
 			j++
 		}
+		if self == 0 {
+			// the sequential engine also delays the third message of an exchange and
+			// delivers it later, after other exchanges
+			switch rapid.IntRange(0, 9).Draw(t, "kd") {
+			case 0:
+				ops = append(ops, c12Op{K: "late", I: i, J: j})
+				continue
+			case 1:
+				ops = append(ops, c12Op{K: "deliver", I: i})
+				continue
+			}
+		}
 		switch k := rapid.IntRange(0, 11).Draw(t, "k"); {
 		case k < 5:
 			ops = append(ops, c12Op{K: "exch", I: i, J: j})
 		case k < 7:
 			ops = append(ops, c12Op{K: "tick", I: i})
 		case k < 8:
-			ops = append(ops, c12Op{K: "change", I: i})
+			ops = append(ops, c12Op{K: "change", I: i, To: rapid.IntRange(0, 4).Draw(t, "to")})
 		case k < 9:
 			ops = append(ops, c12Op{K: "once", I: i})
 		case k < 10:
@@ -151,14 +166,30 @@ type c12Lossy struct {
 	freighter.UnaryClient[Message, Message]
 	mu       sync.Mutex
 	loseAck2 bool
+	// holdAck2: the ack2 is kept by the network (the sender sees a timeout) and reaches
+	// the peer later, when the harness delivers it
+	holdAck2 bool
+	held     []c12Held
+}
+
+type c12Held struct {
+	target address.Address
+	msg    Message
 }
 
 func (l *c12Lossy) Send(ctx context.Context, target address.Address, req Message) (Message, error) {
 	l.mu.Lock()
 	lose := l.loseAck2 && req.variant() == messageVariantAck2
+	hold := l.holdAck2 && req.variant() == messageVariantAck2
+	if hold {
+		l.held = append(l.held, c12Held{target: target, msg: req})
+	}
 	l.mu.Unlock()
 	if lose {
 		return Message{}, errors.New("simnet: ack2 lost")
+	}
+	if hold {
+		return Message{}, errors.New("simnet: ack2 timed out (delivered later)")
 	}
 	return l.UnaryClient.Send(ctx, target, req)
 }
@@ -331,6 +362,26 @@ func (w *c12World) apply(op c12Op, st *drv.Stats) *drv.Failure {
 		nd.client.mu.Lock()
 		nd.client.loseAck2 = false
 		nd.client.mu.Unlock()
+	case "late":
+		nd.client.mu.Lock()
+		nd.client.holdAck2 = true
+		nd.client.mu.Unlock()
+		if err := nd.g.GossipOnceWith(w.ctx, w.nodes[op.J].addr); err != nil {
+			st.Fault("ack2_delayed")
+		}
+		nd.client.mu.Lock()
+		nd.client.holdAck2 = false
+		nd.client.mu.Unlock()
+	case "deliver":
+		// the delayed ack2 messages of node I reach their peers now, in order
+		nd.client.mu.Lock()
+		held := nd.client.held
+		nd.client.held = nil
+		nd.client.mu.Unlock()
+		for _, h := range held {
+			_, _ = nd.client.UnaryClient.Send(w.ctx, h.target, h.msg)
+			st.Fault("ack2_delivered_late")
+		}
 	case "tick":
 		if f := w.publish(next); f != nil {
 			return f
@@ -346,9 +397,13 @@ func (w *c12World) apply(op c12Op, st *drv.Stats) *drv.Failure {
 		st.Probe("gossip_once")
 	case "change":
 		// a member publishes a change of its own record together with a heartbeat advance
-		if next.State == node.StateHealthy {
+		switch {
+		case op.To > 0:
+			next.State = node.State(op.To - 1)
+			st.Probe("state_change_to_" + []string{"healthy", "suspect", "dead", "left"}[(op.To-1)%4])
+		case next.State == node.StateHealthy:
 			next.State = node.StateSuspect
-		} else {
+		default:
 			next.State = node.StateHealthy
 		}
 		if f := w.publish(next); f != nil {
@@ -426,9 +481,17 @@ func (w *c12World) settle(st *drv.Stats) *drv.Failure {
 		}
 	}
 	ref := w.nodes[1].st.CopyState().Nodes
+	// every disagreement, in a fixed order (nodes, then member keys); a disagreement that
+	// the recorded zero-heartbeat finding does not explain is reported before one it does
+	memberKeys := make([]node.Key, 0, len(members))
+	for k := range members {
+		memberKeys = append(memberKeys, k)
+	}
+	sort.Slice(memberKeys, func(i, j int) bool { return memberKeys[i] < memberKeys[j] })
+	var explained, unexplained *drv.Failure
 	for _, nd := range w.nodes[1:] {
 		view := nd.st.CopyState().Nodes
-		for k := range members {
+		for _, k := range memberKeys {
 			n, ok := view[k]
 			if !ok {
 				zero := ""
@@ -441,12 +504,24 @@ func (w *c12World) settle(st *drv.Stats) *drv.Failure {
 						}
 					}
 				}
-				return drv.Failf("gossip-no-convergence", "member-missing"+zero, "after every pair exchanged gossip (%s) node %d does not know member %d", strings.Join(order, " "), nd.id, k)
+				f := drv.Failf("gossip-no-convergence", "member-missing"+zero, "after every pair exchanged gossip (%s) node %d does not know member %d", strings.Join(order, " "), nd.id, k)
+				if zero != "" && explained == nil {
+					explained = f
+				} else if zero == "" && unexplained == nil {
+					unexplained = f
+				}
+				continue
 			}
-			if r, ok := ref[k]; ok && r != n {
-				return drv.Failf("gossip-no-convergence", "views-differ", "after every pair exchanged gossip (%s) node 1 holds member %d as %+v, node %d as %+v", strings.Join(order, " "), k, r, nd.id, n)
+			if r, ok := ref[k]; ok && r != n && unexplained == nil {
+				unexplained = drv.Failf("gossip-no-convergence", "views-differ", "after every pair exchanged gossip (%s) node 1 holds member %d as %+v, node %d as %+v", strings.Join(order, " "), k, r, nd.id, n)
 			}
 		}
+	}
+	if unexplained != nil {
+		return unexplained
+	}
+	if explained != nil {
+		return explained
 	}
 	st.Probe("converged")
 	return nil
@@ -506,11 +581,26 @@ func runC12SeqBody(t *testing.T, c c12Case, st *drv.Stats) (fail *drv.Failure) {
 				return drv.Failf("unexpected-error", "reopen", "%s: %v", what, err)
 			}
 			only = map[int]bool{op.I: true}
-		case "exch", "lossy":
+		case "exch", "lossy", "late":
 			if f := w.apply(op, st); f != nil {
 				return f
 			}
 			only = map[int]bool{op.I: true, op.J: true}
+		case "deliver":
+			// the peers the delayed messages go to take part
+			only = map[int]bool{op.I: true}
+			w.nodes[op.I].client.mu.Lock()
+			for _, h := range w.nodes[op.I].client.held {
+				for _, nd := range w.nodes[1:] {
+					if nd.addr == h.target {
+						only[nd.id] = true
+					}
+				}
+			}
+			w.nodes[op.I].client.mu.Unlock()
+			if f := w.apply(op, st); f != nil {
+				return f
+			}
 		case "once":
 			if f := w.apply(op, st); f != nil {
 				return f
